@@ -482,7 +482,12 @@ fn main() {
             }
             let infos: Vec<Info> = check_partition(&mut run, tree, &label);
             for info in infos {
-                cfs.push(profile.read().unwrap().counterfactual(info));
+                let roots: Vec<usize> = info.roots().iter().map(|r| r.index().index()).collect();
+                let p = profile.read().unwrap();
+                match catch(std::panic::AssertUnwindSafe(|| p.counterfactual(info))) {
+                    Some(cf) => cfs.push(cf),
+                    None => run.fail("training-step-panics-on-information-set", &format!("{label} roots {roots:?}"), "regret and policy vectors", "panic"),
+                }
             }
         }
         let mut p = profile.write().unwrap();
